@@ -266,6 +266,11 @@ func (s *SubRing) parametersLiteral() subRingParametersLiteral {
 // newSubRingFromParametersLiteral creates a new SubRing from the provided subRingParametersLiteral.
 func newSubRingFromParametersLiteral(p subRingParametersLiteral) (s *SubRing, err error) {
 
+	// A decoded literal is not trusted: the reduction constants below divide by the modulus.
+	if p.Modulus < 2 {
+		return nil, fmt.Errorf("invalid modulus: must be at least 2 but is %d", p.Modulus)
+	}
+
 	s = new(SubRing)
 
 	s.N = 1 << int(p.LogN)
